@@ -117,7 +117,7 @@ elif PLAIN:
     order = ['C01', 'C08', 'C02', 'C09', 'C03', 'C10', 'C04', 'C11', 'C05', 'C12', 'C06', 'C13', 'C07', 'C14', 'C15', 'C18', 'C16', 'C19', 'C17', 'C20']
 by = {p['id']: p for p in props}
 for i in range(10):
-    wt = '/tmp/mw%d' % (i + 1)
+    wt = os.environ.get('WT_PREFIX', '/tmp/mw') + '%d' % (i + 1)
     a, b = by[order[2 * i]], by[order[2 * i + 1]]
     with open(os.path.join(out, 'prompt_%d.txt' % (i + 1)), 'w') as f:
         f.write((NEUTRAL_HEAD if NEUTRAL else PLAIN_HEAD if PLAIN else HEAD).format(wt=wt, out=out, sa=sa, sb=sb) + prop_text(a) + prop_text(b))
